@@ -103,7 +103,7 @@ class CHECK(Check):
     theorems = ["C17_write", "C17_clean_prefix", "C17_success_output", "C17_read"]
     rule = ("complete enumeration: files of n = 1..8 elements (quick: n in {1,2,3,5,8}) x fault position k in 0..n-1 or no fault x "
             "{read, write} x file family {register, block, section} x endpoint {path in a real temp directory, caller buffer / "
-            "in-memory content} x storage {text, binary} x exception type {ValueError, KeyError, custom Exception subclass}. "
+            "in-memory content} x storage {text, binary} x exception object {ValueError, KeyError, custom Exception subclass} x {built with a message, built without arguments}. "
             "builtins.open and the adapter's StringIO/BytesIO are wrapped to record every handle the framework opens and its "
             "closed flag after the call; observed: identity of the exception at the call site, handles opened/closed, "
             "buffer.closed / tell() / contents, bytes on disk after a failed write. non-trivial = a fault is injected; distinct = hash")
@@ -118,7 +118,7 @@ class CHECK(Check):
                     for buf in (False, True):
                         for n in ns:
                             for k in list(range(n)) + [None]:
-                                for et in range(3):
+                                for et in range(6):
                                     if k is None and et:
                                         continue
                                     behs = []
@@ -134,7 +134,7 @@ class CHECK(Check):
     def impl(self, case):
         fam, binary = case["fam"], case["binary"]
         F = families.get(fam)
-        excs = [t("injected %d" % i) for i, t in enumerate(EXC_TYPES)]
+        excs = [t("injected %d" % i) for i, t in enumerate(EXC_TYPES)] + [t() for t in EXC_TYPES]   # with and without arguments
         K, state = make_elements(fam, binary, case["behs"], excs, "r" if case["read"] else "w")
         n = len(case["behs"])
         attr = F["list_attr"]
